@@ -51,7 +51,13 @@ def run(ctx, build, verdict, ev):
             scal = []
             for x, klass in xs:
                 with np.errstate(all="ignore"):
-                    r = float(real.membership(x))
+                    try:
+                        r = float(real.membership(x))
+                    except Exception as ex:  # noqa  (membership never raises on a float for valid parameters)
+                        verdict.add_violation(f"{name}:exception", f"{name}{args}.membership({x!r}) raises {type(ex).__name__}: {ex}", {"term": name, "params": p, "x": x})
+                        nviol += 1
+                        scal.append(math.nan)
+                        continue
                     vlib.RECORDER.reset()
                     rc = float(clone.membership(x))
                     tbl = vlib.RECORDER.take()
